@@ -139,7 +139,7 @@ def ident_tags(i):
             # informational: every style reads a newline inside the name (687226d; brackets since 417a203)
             t.add("quote-newline:" + i["s"])
         if i["s"] == "br" and (txt.startswith("[") or txt.endswith("[")):
-            t.add("ident:bracket-edge")         # .strip("[]") removes a "[" that belongs to the name
+            t.add("bracket-edge:" + i["s"])     # informational: the name is group(1) since d4f87a6
     if any(ord(ch) > 127 for ch in i["t"]):
         t.add("ident:non-ascii")
     return t
